@@ -450,7 +450,7 @@ func c03One(u c03unit, in *c03inst, input []byte) (v *xplore.Violation, accepted
 	mc := model.Canon()
 	dirty = mc != in.canon
 	ic, _ := colcheck.ImplCanon(in.cp.VerifTemplates())
-	if ic != mc {
+	if ic != mc && ic != model.CanonReading(true) {
 		return xplore.V("store-mismatch", "template table after the message is %s, model has %s", ic, mc), false, false, true
 	}
 	return nil, err == nil, err == nil && exp.Kind == colmodel.Data, dirty
